@@ -36,6 +36,8 @@ pub enum Wl {
     /// the receiver stops the first stream early; the sender abandons it and goes on with three
     /// more streams (with a small stream limit they reuse what the stopped stream released)
     W12,
+    /// a burst of datagrams near the largest size a 1452-byte path takes, then small ones
+    W13,
 }
 
 pub fn plans(w: Wl, read: ReadMode) -> (Plan, Plan) {
@@ -80,6 +82,11 @@ pub fn plans(w: Wl, read: ReadMode) -> (Plan, Plan) {
             c.reset_on_stopped = true;
             s.stop = Some((0, 500, 55));
             s.echo_len = Some(700);
+        }
+        Wl::W13 => {
+            c.streams = vec![uni(3000, 1000)];
+            c.datagrams = vec![1400; 44];
+            c.datagrams.extend([100, 60, 1100]);
         }
         Wl::W10 => {
             c.streams = vec![uni(40_000, 4000)];
@@ -577,6 +584,7 @@ pub fn wl_from_str(s: &str) -> Wl {
         "W10" => Wl::W10,
         "W11" => Wl::W11,
         "W12" => Wl::W12,
+        "W13" => Wl::W13,
         _ => crate::report::machinery(&format!("unknown workload {s}")),
     }
 }
